@@ -13,6 +13,7 @@ import AgpTpf.Model.Remap
 import AgpTpf.Model.Cache
 import AgpTpf.Model.Cli
 import AgpTpf.Model.Outputs
+import AgpTpf.Model.CliPlan
 open Lean AgpTpf
 
 abbrev D := Except String
@@ -347,6 +348,48 @@ def hOutputs (j : Json) : D Json := do
   pure (Json.mkObj [("exit", jnat r.exit), ("error_path", jopt jstr r.errorPath),
     ("fs", jarr (fun (p : Str × Outputs.Content) => Json.arr #[jstr p.1, Json.str (match p.2 with | .old => "old" | .new => "new")]) r.fs)])
 
+/-- pathlib / `format_from_file_extn` / `parse_output_file` and the derived file names, on file NAMES (C16 plan model) -/
+def hPathParse (j : Json) : D Json := do
+  let names ← getSL j "names"
+  pure (jarr (fun (n : Str) => Json.mkObj [
+    ("suffix", jstr (pathSuffix n)), ("stem", jstr (pathStem n)),
+    ("fmt", jopt (fun (f : Fmt) => jstr f.name) (formatFromExt (pathSuffix n) none)),
+    ("parse", encR (fun (r : Fmt × Str × Str × Str) => Json.arr #[jstr r.1.name, jstr r.2.1, jstr r.2.2.1, jstr r.2.2.2]) (parseOutputFile n)),
+    ("log", encR jstr (logFileName n)), ("yaml", encR jstr (infoYamlName n)), ("report", encR jstr (chrReportName n)),
+    ("agp", encR jstr (agpBesideName n))]) names)
+
+def decOutAsm (a : Json) : D OutAsm := do
+  let scs ← (← getA a "scaffolds").mapM decScaffold
+  pure { key := ← getOptS a "key", curated := ← getB a "curated", scaffolds := scs }
+
+/-- the whole output plan of one `pretext-to-asm --output` run + what the info yaml and the chr_report csv say -/
+def hCliPlan (j : Json) : D Json := do
+  let outs ← (← getA j "assemblies").mapM decOutAsm
+  let outName ← getS j "out"
+  let writeLog ← getB j "write_log"
+  let prefix_ ← getS j "prefix"
+  let sj ← j.getObjVal? "stats"
+  let per ← (← getA sj "per_assembly").mapM (fun v => do
+    let a ← v.getArr?
+    let nm ← (a[0]!).getStr?
+    pure (nm.toList, ← (a[1]!).getInt?, ← (a[2]!).getInt?))
+  let stats : Stats := { cuts := ← getI sj "cuts", breaks := ← getI sj "breaks", joins := ← getI sj "joins", perAssembly := per }
+  let info := infoRecord stats outs
+  let named : R (List NamedAsm) := do
+    let (_, root, version, _) ← parseOutputFile outName
+    let n ← nameAssemblies outs root version
+    pure (namedDict n)
+  let report := match named with
+    | .ok n => chromosomesReport prefix_ n
+    | .error _ => []
+  pure (Json.mkObj [
+    ("plan", encR (jarr jstr) (cliOutputPlan outName writeLog outs prefix_)),
+    ("info", Json.mkObj [("assemblies", jarr (fun (p : Str × Int × Int) => Json.arr #[jstr p.1, jint p.2.1, jint p.2.2]) info.assemblies),
+                         ("manual_breaks", jopt jint info.manualBreaks), ("manual_joins", jopt jint info.manualJoins),
+                         ("manual_haplotig_removals", jint info.haplotigRemovals)]),
+    ("report", jarr (fun (r : ReportRow) => Json.arr #[jstr r.assembly, jstr r.seqName, jstr r.chromosome, Json.bool r.localised,
+                       jopt jstr r.pretextScaffold, jint r.length, jint r.lengthMinusGaps]) report)])
+
 def dispatch (j : Json) : D Json := do
   let kind ← getS j "kind"
   match String.ofList kind with
@@ -374,6 +417,8 @@ def dispatch (j : Json) : D Json := do
   | "warm" => hWarm j
   | "cache" => hCache j
   | "outputs" => hOutputs j
+  | "pathparse" => hPathParse j
+  | "cliplan" => hCliPlan j
   | k => throw s!"unknown kind {k}"
 
 partial def loop (h : IO.FS.Stream) (out : IO.FS.Stream) : IO Unit := do
